@@ -1,12 +1,255 @@
 import ParryModel.Field
 import ParryModel.C03.Model
-/-! # C03 property theorems (work in progress) -/
+import ParryModel.C03.Lemmas
+/-!
+# C03 property theorems: argument-order and frame independence.
+
+All statements are about the model functions of `C03/Model.lean` (and the isometry layer of `Vec.lean`) at the
+lawful instance `fieldNum K sq` — any linearly ordered field.  `Unit3 m` is `|q|² = 1` for the rotation of `m`.
+
+Part 1: the isometry group (nalgebra's concrete quaternion formulas form a group acting by isometries).
+Part 2: result-flipping helpers and the mirrored wrappers (swap of arguments = flip of the result).
+Part 3: the free functions (`pos12 = pos1⁻¹·pos2`, back-transform): frame independence and swap symmetry.
+Part 4: the pinned-tree defect, refuted by a concrete witness.
+-/
 namespace C03
 open Model
 
 variable {K : Type} [Field K] [LinearOrder K] [IsStrictOrderedRing K] (sq : K → K)
 
-/-- `Contact::flipped` is an involution. -/
-theorem contact_flipped_flipped (c : Contact3 K) : c.flipped.flipped = c := rfl
+/-! ## Part 1 — the isometry group -/
+
+/-- `inv_mul` is literally `inverse` followed by `mul` (component-wise, no unit hypothesis needed). -/
+theorem iso3_invMul_eq_inverse_mul (a b : Iso3 K) :
+    letI := fieldNum K sq
+    a.invMul b = a.inverse.mul b := by
+  simp only [Iso3.invMul, Iso3.inverse, Iso3.mul, Iso3.rot, Iso3.qv, Iso3.qmul, Iso3.rotQ, V3.add, V3.sub, V3.neg,
+    V3.smul, V3.cross, fieldNum_two, Iso3.mk.injEq, V3.mk.injEq]
+  refine ⟨trivial, trivial, trivial, trivial, ?_, ?_, ?_⟩ <;> ring
+
+/-- `inverse_transform_point` is the action of the inverse isometry (component-wise). -/
+theorem iso3_invAct_eq_inverse_act (m : Iso3 K) (p : V3 K) :
+    letI := fieldNum K sq
+    m.invAct p = m.inverse.act p := by
+  simp only [Iso3.invAct, Iso3.invRot, Iso3.inverse, Iso3.act, Iso3.rot, Iso3.qv, Iso3.rotQ, V3.add, V3.sub, V3.neg,
+    V3.smul, V3.cross, fieldNum_two, V3.mk.injEq]
+  refine ⟨?_, ?_, ?_⟩ <;> ring
+
+/-- `inverse_transform_vector` is the rotation of the inverse isometry. -/
+theorem iso3_invRot_eq_inverse_rot (m : Iso3 K) (v : V3 K) :
+    letI := fieldNum K sq
+    m.invRot v = m.inverse.rot v := rfl
+
+/-- the inverse of a unit isometry is a unit isometry -/
+theorem unit3_inverse (m : Iso3 K) (h : Unit3 m) :
+    letI := fieldNum K sq
+    Unit3 m.inverse := by
+  simp only [Unit3, Iso3.inverse, Iso3.qv, V3.neg] at h ⊢
+  linear_combination h
+
+/-- the product of unit isometries is a unit isometry (the quaternion norm is multiplicative) -/
+theorem unit3_mul (a b : Iso3 K) (ha : Unit3 a) (hb : Unit3 b) :
+    letI := fieldNum K sq
+    Unit3 (a.mul b) :=
+  qmul_unit sq ⟨a.qi, a.qj, a.qk⟩ a.qw ⟨b.qi, b.qj, b.qk⟩ b.qw ha hb
+
+/-- `inv_mul` of unit isometries is a unit isometry -/
+theorem unit3_invMul (a b : Iso3 K) (ha : Unit3 a) (hb : Unit3 b) :
+    letI := fieldNum K sq
+    Unit3 (a.invMul b) :=
+  qmul_unit sq ⟨-a.qi, -a.qj, -a.qk⟩ a.qw ⟨b.qi, b.qj, b.qk⟩ b.qw (by unfold Unit3 at ha; linear_combination ha) hb
+
+/-- **`inverse` is a two-sided inverse for the action on points.** -/
+theorem iso3_inverse_act (m : Iso3 K) (p : V3 K) (h : Unit3 m) :
+    letI := fieldNum K sq
+    m.inverse.act (m.act p) = p ∧ m.act (m.inverse.act p) = p := by
+  have e1 := invRot_rot sq m p h
+  have e2 := rot_invRot sq m (V3.mk (p.x - m.t.x) (p.y - m.t.y) (p.z - m.t.z)) h
+  obtain ⟨i, j, k, w, tx, ty, tz⟩ := m; obtain ⟨x, y, z⟩ := p
+  simp only [Iso3.invRot, Iso3.inverse, Iso3.act, Iso3.rot, Iso3.qv, Iso3.rotQ, V3.add, V3.sub, V3.neg,
+    V3.smul, V3.cross, fieldNum_two, V3.mk.injEq] at e1 e2 ⊢
+  obtain ⟨a1, a2, a3⟩ := e1; obtain ⟨b1, b2, b3⟩ := e2
+  refine ⟨⟨?_, ?_, ?_⟩, ⟨?_, ?_, ?_⟩⟩
+  · linear_combination a1
+  · linear_combination a2
+  · linear_combination a3
+  · linear_combination b1
+  · linear_combination b2
+  · linear_combination b3
+
+/-- **`inverse_transform_point` undoes `transform_point`** (and conversely). -/
+theorem iso3_invAct_act (m : Iso3 K) (p : V3 K) (h : Unit3 m) :
+    letI := fieldNum K sq
+    m.invAct (m.act p) = p ∧ m.act (m.invAct p) = p := by
+  have := iso3_inverse_act sq m p h
+  rw [iso3_invAct_eq_inverse_act, iso3_invAct_eq_inverse_act]
+  exact this
+
+/-- **The product acts as the composition** (`(a·b)•p = a•(b•p)`), on points and on vectors. -/
+theorem iso3_mul_act (a b : Iso3 K) (p : V3 K) (ha : Unit3 a) (hb : Unit3 b) :
+    letI := fieldNum K sq
+    (a.mul b).act p = a.act (b.act p) ∧ (a.mul b).rot p = a.rot (b.rot p) := by
+  have e := mul_rot sq a b p ha hb
+  refine ⟨?_, e⟩
+  obtain ⟨a0, a1, a2, aw, ax, ay, az⟩ := a; obtain ⟨b0, b1, b2, bw, bx, by', bz⟩ := b; obtain ⟨x, y, z⟩ := p
+  simp only [Iso3.mul, Iso3.act, Iso3.rot, Iso3.qv, Iso3.qmul, Iso3.rotQ, V3.add, V3.smul, V3.cross, fieldNum_two,
+    V3.mk.injEq] at e ⊢
+  obtain ⟨e1, e2, e3⟩ := e
+  refine ⟨?_, ?_, ?_⟩
+  · linear_combination e1
+  · linear_combination e2
+  · linear_combination e3
+
+/-- **A unit isometry preserves dot products of vectors and squared distances of points.** -/
+theorem iso3_rot_dot (m : Iso3 K) (u v p r : V3 K) (h : Unit3 m) :
+    letI := fieldNum K sq
+    (m.rot u).dot (m.rot v) = u.dot v ∧ ((m.act p).sub (m.act r)).normSq = (p.sub r).normSq := by
+  refine ⟨rotQ_dot sq ⟨m.qi, m.qj, m.qk⟩ m.qw u v h, ?_⟩
+  have e := rotQ_dot sq ⟨m.qi, m.qj, m.qk⟩ m.qw (V3.mk (p.x - r.x) (p.y - r.y) (p.z - r.z))
+    (V3.mk (p.x - r.x) (p.y - r.y) (p.z - r.z)) h
+  obtain ⟨i, j, k, w, tx, ty, tz⟩ := m; obtain ⟨x, y, z⟩ := p; obtain ⟨x', y', z'⟩ := r
+  simp only [Iso3.act, Iso3.rot, Iso3.qv, Iso3.rotQ, V3.add, V3.sub, V3.smul, V3.cross, V3.normSq, V3.dot,
+    fieldNum_two] at e ⊢
+  linear_combination e
+
+/-- the inverse rotation also preserves dot products, and is adjoint to the rotation:
+`⟪R⁻¹u, v⟫ = ⟪u, R v⟫`. -/
+theorem iso3_invRot_dot (m : Iso3 K) (u v : V3 K) (h : Unit3 m) :
+    letI := fieldNum K sq
+    (m.invRot u).dot (m.invRot v) = u.dot v ∧ (m.invRot u).dot v = u.dot (m.rot v) := by
+  have h' : (-m.qi) * (-m.qi) + (-m.qj) * (-m.qj) + (-m.qk) * (-m.qk) + m.qw * m.qw = 1 := by
+    unfold Unit3 at h; linear_combination h
+  have e1 := rotQ_dot sq ⟨-m.qi, -m.qj, -m.qk⟩ m.qw u v h'
+  refine ⟨e1, ?_⟩
+  obtain ⟨i, j, k, w, tx, ty, tz⟩ := m; obtain ⟨x, y, z⟩ := u; obtain ⟨x', y', z'⟩ := v
+  simp only [Iso3.invRot, Iso3.rot, Iso3.qv, Iso3.rotQ, V3.add, V3.neg, V3.smul, V3.cross, V3.dot, fieldNum_two]
+  ring
+
+/-- **`inverse` is an involution** on unit isometries. -/
+theorem iso3_inverse_inverse (m : Iso3 K) (h : Unit3 m) :
+    letI := fieldNum K sq
+    m.inverse.inverse = m := by
+  have e := rot_invRot sq m m.t h
+  obtain ⟨i, j, k, w, tx, ty, tz⟩ := m
+  simp only [Iso3.inverse, Iso3.invRot, Iso3.rot, Iso3.qv, Iso3.rotQ, V3.add, V3.neg, V3.smul, V3.cross, fieldNum_two,
+    Iso3.mk.injEq, V3.mk.injEq, neg_neg] at e ⊢
+  obtain ⟨e1, e2, e3⟩ := e
+  refine ⟨trivial, trivial, trivial, trivial, ?_, ?_, ?_⟩
+  · linear_combination e1
+  · linear_combination e2
+  · linear_combination e3
+
+/-- `identity` is a left unit. -/
+theorem iso3_identity_mul (m : Iso3 K) :
+    letI := fieldNum K sq
+    Iso3.identity.mul m = m := by
+  obtain ⟨i, j, k, w, tx, ty, tz⟩ := m
+  simp only [Iso3.identity, Iso3.mul, Iso3.rot, Iso3.qv, Iso3.qmul, Iso3.rotQ, V3.add, V3.zero, V3.smul, V3.cross,
+    fieldNum_two, Iso3.mk.injEq, V3.mk.injEq]
+  refine ⟨?_, ?_, ?_, ?_, ?_, ?_, ?_⟩ <;> ring
+
+/-- **`inverse` is a left inverse for `mul`**: `m⁻¹·m = identity`. -/
+theorem iso3_inverse_mul_self (m : Iso3 K) (h : Unit3 m) :
+    letI := fieldNum K sq
+    m.inverse.mul m = Iso3.identity := by
+  obtain ⟨i, j, k, w, tx, ty, tz⟩ := m
+  simp only [Unit3, Iso3.identity, Iso3.inverse, Iso3.mul, Iso3.rot, Iso3.qv, Iso3.qmul, Iso3.rotQ, V3.add, V3.zero,
+    V3.neg, V3.smul, V3.cross, fieldNum_two, Iso3.mk.injEq, V3.mk.injEq] at h ⊢
+  refine ⟨?_, ?_, ?_, ?_, ?_, ?_, ?_⟩
+  · ring
+  · ring
+  · ring
+  · linear_combination h
+  · ring
+  · ring
+  · ring
+
+/-- **`inverse` is a right inverse for `mul`**: `m·m⁻¹ = identity`. -/
+theorem iso3_mul_inverse_self (m : Iso3 K) (h : Unit3 m) :
+    letI := fieldNum K sq
+    m.mul m.inverse = Iso3.identity := by
+  have e := rot_invRot sq m (V3.mk (-m.t.x) (-m.t.y) (-m.t.z)) h
+  obtain ⟨i, j, k, w, tx, ty, tz⟩ := m
+  simp only [Unit3, Iso3.identity, Iso3.inverse, Iso3.invRot, Iso3.mul, Iso3.rot, Iso3.qv, Iso3.qmul, Iso3.rotQ, V3.add,
+    V3.zero, V3.neg, V3.smul, V3.cross, fieldNum_two, Iso3.mk.injEq, V3.mk.injEq] at h e ⊢
+  obtain ⟨e1, e2, e3⟩ := e
+  refine ⟨?_, ?_, ?_, ?_, ?_, ?_, ?_⟩
+  · ring
+  · ring
+  · ring
+  · linear_combination h
+  · linear_combination e1
+  · linear_combination e2
+  · linear_combination e3
+
+/-- **`mul` is associative** on unit isometries. -/
+theorem iso3_mul_assoc (a b c : Iso3 K) (ha : Unit3 a) (hb : Unit3 b) :
+    letI := fieldNum K sq
+    (a.mul b).mul c = a.mul (b.mul c) := by
+  have e := mul_rot sq a b c.t ha hb
+  obtain ⟨a0, a1, a2, aw, ax, ay, az⟩ := a; obtain ⟨b0, b1, b2, bw, bx, by', bz⟩ := b
+  obtain ⟨c0, c1, c2, cw, cx, cy, cz⟩ := c
+  simp only [Iso3.mul, Iso3.rot, Iso3.qv, Iso3.qmul, Iso3.rotQ, V3.add, V3.smul, V3.cross, fieldNum_two,
+    Iso3.mk.injEq, V3.mk.injEq] at e ⊢
+  obtain ⟨e1, e2, e3⟩ := e
+  refine ⟨?_, ?_, ?_, ?_, ?_, ?_, ?_⟩
+  · ring
+  · ring
+  · ring
+  · ring
+  · linear_combination e1
+  · linear_combination e2
+  · linear_combination e3
+
+/-- `identity` is a right unit. -/
+theorem iso3_mul_identity (m : Iso3 K) :
+    letI := fieldNum K sq
+    m.mul Iso3.identity = m := by
+  obtain ⟨i, j, k, w, tx, ty, tz⟩ := m
+  simp only [Iso3.identity, Iso3.mul, Iso3.rot, Iso3.qv, Iso3.qmul, Iso3.rotQ, V3.add, V3.zero, V3.smul, V3.cross,
+    fieldNum_two, Iso3.mk.injEq, V3.mk.injEq]
+  refine ⟨?_, ?_, ?_, ?_, ?_, ?_, ?_⟩ <;> ring
+
+local notation "inv'" => @Iso3.inverse K (fieldNum K sq)
+
+/-- inverses are unique: a right inverse of `x` is `x⁻¹`. -/
+theorem iso3_inverse_unique (x y : Iso3 K) (hx : Unit3 x)
+    (h : letI := fieldNum K sq; x.mul y = Iso3.identity) :
+    letI := fieldNum K sq
+    x.inverse = y := by
+  have e := iso3_mul_assoc sq (inv' x) x y (unit3_inverse sq x hx) hx
+  rw [iso3_inverse_mul_self sq x hx, iso3_identity_mul, h, iso3_mul_identity] at e
+  exact e.symm
+
+private theorem mul_mul_inverses (a b : Iso3 K) (ha : Unit3 a) (hb : Unit3 b) :
+    letI := fieldNum K sq
+    (a.mul b).mul (b.inverse.mul a.inverse) = Iso3.identity := by
+  rw [iso3_mul_assoc sq a b _ ha hb, ← iso3_mul_assoc sq b _ _ hb (unit3_inverse sq b hb),
+    iso3_mul_inverse_self sq b hb, iso3_identity_mul, iso3_mul_inverse_self sq a ha]
+
+/-- **`(a·b)⁻¹ = b⁻¹·a⁻¹`** for unit isometries. -/
+theorem iso3_inverse_mul (a b : Iso3 K) (ha : Unit3 a) (hb : Unit3 b) :
+    letI := fieldNum K sq
+    (a.mul b).inverse = b.inverse.mul a.inverse :=
+  iso3_inverse_unique sq _ _ (unit3_mul sq a b ha hb) (mul_mul_inverses sq a b ha hb)
+
+/-- **Frame independence of `pos12`**: a common unit isometry `g` applied to both poses leaves
+`pos1.inv_mul(pos2)` unchanged: `(g·p1)⁻¹(g·p2) = p1⁻¹p2`. -/
+theorem iso3_invMul_frame (g p1 p2 : Iso3 K) (hg : Unit3 g) (h1 : Unit3 p1) :
+    letI := fieldNum K sq
+    (g.mul p1).invMul (g.mul p2) = p1.invMul p2 := by
+  rw [iso3_invMul_eq_inverse_mul, iso3_invMul_eq_inverse_mul, iso3_inverse_mul sq g p1 hg h1,
+    iso3_mul_assoc sq _ _ _ (unit3_inverse sq p1 h1) (unit3_inverse sq g hg),
+    ← iso3_mul_assoc sq _ g p2 (unit3_inverse sq g hg) hg, iso3_inverse_mul_self sq g hg, iso3_identity_mul]
+
+/-- **Swapping the poses inverts `pos12`**: `pos2.inv_mul(pos1) = (pos1.inv_mul(pos2))⁻¹`. -/
+theorem iso3_invMul_swap (a b : Iso3 K) (ha : Unit3 a) (hb : Unit3 b) :
+    letI := fieldNum K sq
+    b.invMul a = (a.invMul b).inverse := by
+  rw [iso3_invMul_eq_inverse_mul, iso3_invMul_eq_inverse_mul, iso3_inverse_mul sq _ b (unit3_inverse sq a ha) hb,
+    iso3_inverse_inverse sq a ha]
+
+example : Unit3 (⟨0, 0, 3/5, 4/5, ⟨1, -2, 3⟩⟩ : Iso3 ℚ) ∧ Unit3 (⟨1/2, -1/2, 1/2, 1/2, ⟨0, 7, 1/3⟩⟩ : Iso3 ℚ) := by
+  unfold Unit3; norm_num
 
 end C03
